@@ -65,6 +65,10 @@ pub(crate) struct SessionConnectionActorX<S: ZmtpStdStream> {
   _connection_permit: Option<OwnedSemaphorePermit>,
   incoming_pipe_sender: Option<PipeMessageSender>,
   is_currently_congested: bool,
+  /// Messages the engine delivered while the handshake was still being driven (data frames that
+  /// shared a read with the peer's last handshake bytes). They are moved into the ingress buffer
+  /// once the operational loop starts.
+  handshake_early_deliveries: Vec<FrameBatch>,
 
   #[cfg(target_os = "linux")]
   cork_info: Option<crate::sessionx::cork::TcpCorkInfoX>,
@@ -150,6 +154,7 @@ where
       _connection_permit: connection_permit,
       incoming_pipe_sender: None,
       is_currently_congested: false,
+      handshake_early_deliveries: Vec::new(),
       cork_info,
     };
 
@@ -286,6 +291,7 @@ where
     // ── OPERATIONAL LOOP ──────────────────────────────────────────────────────
     if self.current_phase == ConnectionPhaseX::Operational {
       let mut message_processor = ZmqMessageProcessor::new();
+      ingress_buffer.extend(self.handshake_early_deliveries.drain(..));
 
       let mut read_half = self
         .read_half
@@ -918,7 +924,9 @@ where
           self.set_fatal_error(e).await;
           return;
         }
-        AppAction::DeliverMessage(_) => {}
+        // Data that arrived in the same read as the end of the handshake: keep it for the
+        // operational loop instead of dropping it.
+        AppAction::DeliverMessage(batch) => self.handshake_early_deliveries.push(batch),
       }
     }
   }
